@@ -3,7 +3,10 @@
 cd /verif
 fail=0
 for d in seeded/*/; do
-  n=$(basename $d); id=$(python3 -c "import json;print(json.load(open('$d/meta.json'))['property'])")
+  n=$(basename $d); id=$(python3 -c "
+import json;m=json.load(open('$d/meta.json'));c=m.get('check_exit_codes') or {}
+ids=[k for k,v in c.items() if v==1]
+print(m['property'] if m['property'] in ids or not ids else ids[0])")
   out=$(tools/mutest.sh $d/patch.diff $id quick 2>&1 | grep -v '^KNOWN' | tail -3)
   rc=$(echo "$out" | grep -oE 'mutest exit=[0-9]+' | grep -oE '[0-9]+$')
   clause=$(echo "$out" | grep -oE 'violation detail: \[[^]]+\]' | head -1)
